@@ -14,6 +14,12 @@ ALL = '--all' in sys.argv
 OUT = '/verif/selftest/mutation_audit.json'
 if '--out' in sys.argv: OUT = sys.argv[sys.argv.index('--out') + 1]
 only = [a for a in sys.argv[1:] if a.startswith('m') and a[1:].isdigit()]
+skip = set()
+if '--skip-done' in sys.argv:
+    # resume: mutants already judged in an earlier (interrupted) run, read from its log
+    for l in open(sys.argv[sys.argv.index('--skip-done') + 1]):
+        m = re.match(r'\[\d+/\d+\] (m\d+) ', l)
+        if m: skip.add(m.group(1))
 props = [f'C{i:02d}' for i in range(1, 21)]
 def run(cmd, cwd, timeout=None):
     try:
@@ -66,16 +72,19 @@ def check(d, p):
     shutil.rmtree(out, ignore_errors=True)
     return p, c, re.findall(r'^FAILED (\S.*?) \[', o, re.M)
 results = []
-todo = [m for m in index if status[m['id']] == 'survives-tests' or (ALL and status[m['id']] == 'killed-by-tests')]
+todo = [m for m in index if (status[m['id']] == 'survives-tests' or (ALL and status[m['id']] == 'killed-by-tests')) and m['id'] not in skip]
 for k, m in enumerate(todo):
     f = norm_func(m['func'])
     sel = [p for p in props if f in funcs_of[p]] or props
     d = scratch(m)
     try:
         alarms = {}
-        with concurrent.futures.ThreadPoolExecutor(max_workers=5) as ex:
-            for p, c, failed in ex.map(lambda p: check(d, p), sel):
-                if c != 0: alarms[p] = failed[:4]
+        # five properties at a time; once a chunk has raised an alarm the mutant counts as caught and the rest is skipped
+        for k0 in range(0, len(sel), 5):
+            with concurrent.futures.ThreadPoolExecutor(max_workers=5) as ex:
+                for p, c, failed in ex.map(lambda p: check(d, p), sel[k0:k0+5]):
+                    if c != 0: alarms[p] = failed[:4]
+            if alarms and not ALL: break
         r = dict(m, tests=status[m['id']], properties_checked=sel, alarms=alarms, caught=bool(alarms))
         results.append(r)
         print(f"[{k+1}/{len(todo)}] {m['id']} {m['file']}:{m['line']} {f} {m['op']} ({m['desc']}) tests={status[m['id']]} -> {'caught by ' + ','.join(sorted(alarms)) if alarms else 'NOT CAUGHT'}", flush=True)
